@@ -101,6 +101,16 @@ def _neighbours(prog):
             if float(lit["src"]) == int(float(lit["src"])):
                 lb["t"], lb["src"] = "int", str(int(float(lit["src"])))
                 res.append(("float literal vs the ==-equal int literal (#%d)" % i, a, b))
+    # ---- a numeric literal vs the string literal with the same spelling (2134 vs "2134")
+    for i, lit in enumerate(_num_lits(prog)[:3]):
+        if lit["neg"]:
+            continue
+        a, b = copy.deepcopy(prog), copy.deepcopy(prog)
+        lb = _num_lits(b)[i]
+        src = lit["src"]
+        lb.clear()
+        lb.update(M.lit_str(src))
+        res.append(("numeric literal vs the string literal of the same spelling (#%d)" % i, a, b))
     # ---- a group label that spells the tokens of two groups:  "A" weighted 1 , "B" weighted 1   vs   "A weighted 1 , B" weighted 1
     for ri, r in enumerate(M.returns(prog["body"])):
         g = r["groups"]
